@@ -7,7 +7,8 @@ from .. import sqlabs as S
 from ..core import AnalysisError, Report, call_name, dotted, unparse
 from ..ctx import Ctx
 from ..dataflow import find_calls
-from .sqlutil import (exec_dominates, sql_of, stmt_kind, table_of)
+from .sqlutil import (exec_dominates, link_rows_follow_node_deletes, sql_of,
+                      stmt_kind, table_of)
 from .util import enclosing
 
 EXPLANATION = (
@@ -106,35 +107,7 @@ def check(rep: Report, ctx: Ctx) -> None:
     # ---- R15.2 ---------------------------------------------------------------
     rep.rule("R15.2", "every DELETE on nodes is followed, before the commit, "
              "by a DELETE of the link rows whose child no longer exists", 2)
-    cascade = _has_cascade(ctx)
-    for i, x in enumerate(it.execs):
-        if not (isinstance(x.stmt, S.Delete) and table_of(x.stmt) == "nodes"):
-            continue
-        ok, why = False, "no DELETE on NODE_ASSOCIATION before the commit"
-        for y in it.execs[i + 1:]:
-            if y.kind == "commit":
-                break
-            if isinstance(y.stmt, S.Delete) and table_of(
-                    y.stmt) == "NODE_ASSOCIATION":
-                good, why = _removes_orphans(y.stmt)
-                if good:
-                    # same transaction: y must be on every path after x
-                    dom, how = exec_dominates(ctx, x, y)
-                    post = _postdominates(ctx, y, x)
-                    ok = dom and post
-                    why = why + (f"; {how}" if not ok else "")
-                    break
-        if not ok and cascade:
-            raise AnalysisError("link rows are maintained by an ON DELETE "
-                                "CASCADE design: outside the rule's "
-                                "vocabulary")
-        rep.ob("R15.2", f"node delete in {x.func.short}", ok, fi=x.func,
-               node=x.node, path=x.chain,
-               detail=why + ("" if ok else
-                             " -- the links of the deleted spans stay "
-                             "behind; re-ingesting the same files re-inserts "
-                             "the spans and then collides on "
-                             "NODE_ASSOCIATION's composite key"))
+    link_rows_follow_node_deletes(rep, ctx, "R15.2", it)
 
     # ---- R15.3 ---------------------------------------------------------------
     rep.rule("R15.3", "tables created at run time are TEMPORARY or dropped "
@@ -217,62 +190,3 @@ def check(rep: Report, ctx: Ctx) -> None:
                    fi=f, node=c,
                    detail=f"mode {m!r} (append or exclusive modes make a "
                           "second run differ or fail)")
-
-
-def _postdominates(ctx: Ctx, y: S.Exec, x: S.Exec) -> bool:
-    """y is executed on every normal path after x (same divergence
-    function)."""
-    i = 0
-    while i < len(x.sites) and i < len(y.sites) \
-            and x.sites[i][0] == y.sites[i][0] \
-            and x.sites[i][1] is y.sites[i][1]:
-        i += 1
-    if i >= len(x.sites) or i >= len(y.sites) \
-            or x.sites[i][0] != y.sites[i][0]:
-        return False
-    from .sqlutil import _stmt_node_in, always_executed
-    f = x.sites[i][0]
-    cfg = ctx.cfg(f)
-    a, b = _stmt_node_in(ctx, f, x.sites[i][1]), _stmt_node_in(
-        ctx, f, y.sites[i][1])
-    if not cfg.postdominates(b, a):
-        return False
-    return all(always_executed(ctx, g, n) for g, n in y.sites[i + 1:])
-
-
-def _removes_orphans(d: S.Delete) -> tuple[bool, str]:
-    """DELETE FROM NODE_ASSOCIATION WHERE child_id NOT IN (SELECT
-    nodes.event_id) -- or the NOT EXISTS form."""
-    if len(d.where) != 1:
-        return False, f"link delete has {len(d.where)} where clauses"
-    w = S.normalise(d.where[0])
-    if isinstance(w, S.Not) and isinstance(w.item, S.In):
-        w = S.In(w.item.col, w.item.what, not w.item.negated)
-    if isinstance(w, S.Not) and isinstance(w.item, S.Exists):
-        w = S.Exists(w.item.select, not w.item.negated)
-    if isinstance(w, S.In) and w.negated and isinstance(w.col, S.Col) \
-            and w.col.name == "child_id" and isinstance(w.what, S.Select):
-        sel = w.what
-        if len(sel.cols) == 1 and isinstance(sel.cols[0], S.Col) \
-                and sel.cols[0].table == "nodes" \
-                and sel.cols[0].name == "event_id" and not sel.where \
-                and not sel.joins and not sel.having:
-            return True, "link rows whose child_id is not a stored event_id"
-    if isinstance(w, S.Exists) and w.negated and isinstance(
-            w.select, S.Select) and len(w.select.where) == 1:
-        c = w.select.where[0]
-        if isinstance(c, S.Cmp) and c.op == "==":
-            names = {(x.table, x.name) for x in (c.left, c.right)
-                     if isinstance(x, S.Col)}
-            if names == {("NODE_ASSOCIATION", "child_id"),
-                         ("nodes", "event_id")}:
-                return True, "link rows with no stored child (NOT EXISTS)"
-    return False, (f"link delete '{d.nf()[:120]}' does not select the rows "
-                   "whose child no longer exists")
-
-
-def _has_cascade(ctx: Ctx) -> bool:
-    for m in ctx.index.modules.values():
-        if "ondelete" in m.src and "foreign_keys" in m.src.lower():
-            return True
-    return False
